@@ -1330,9 +1330,9 @@ class Gen:
 
     def model(self, well_formed):
         r = self.r
-        # bytes of large blobs (regions, stacks) per model: the whole 64 KiB in one model in six of the quick tier and in every second
-        # model of the thorough tier (the cost of a run is the number of bytes the extracted decoder walks), 5000 bytes in the others
-        budget = [self.big_budget if r.chance(1, 6 if self.tier == "quick" else 2) else 5000]
+        # bytes of large blobs (regions, stacks) per model: the whole 64 KiB in one model in six of the quick tier and in one model in
+        # three of the thorough tier (the cost of a run is the number of bytes the extracted decoder walks), 5000 bytes in the others
+        budget = [self.big_budget if r.chance(1, 6 if self.tier == "quick" else 3) else 5000]
         m = {"endian": 0, "version": 42899 | (self.u(16) << 16), "checksum": self.u(32), "time": self.u(32), "flags": self.u(64),
              "pad": r.below(2), "extra": []}
         present = {k: r.chance(2, 3) for k in ST}
@@ -1879,7 +1879,7 @@ class C02(PropBase):
     def gen_models(self, tier, seed):
         rng = Rng(seed)
         g = Gen(rng, tier)
-        n = 460 if tier == "quick" else 2000
+        n = 460 if tier == "quick" else 1200
         if os.environ.get("VERIF_REPO") and os.environ.get("VERIF_C02_MODELS"):      # developer runs (mutation experiments) only
             n = int(os.environ["VERIF_C02_MODELS"])
         models = []
